@@ -47,6 +47,9 @@ pub fn cancel_strategy() -> BoxedStrategy<CancelCase> {
         2 => Just(Op::CreateActive),
         2 => Just(Op::Restore),
         1 => Just(Op::Fsync),
+        // calls without a data effect of their own, which nevertheless touch indexes / the active blob on behalf of the caller
+        2 => Just(Op::Free),
+        2 => pred_strategy().prop_map(Op::ForceUpdate),
     ];
     let cfg = (cfg_strategy(&[8, 33], true), prop::bool::weighted(0.6)).prop_map(|(mut c, current_thread)| {
         c.allow_dup = true;
@@ -155,6 +158,14 @@ pub fn run_cancel(c: &CancelCase, dir: &Path, findings: &Findings) -> Result<Cas
                 let (r, u) = poll_k(s.try_restore_active(), k).await;
                 (r.map(|x| x.is_ok()), u)
             }
+            Op::Free => {
+                let (r, u) = poll_k(s.free_excess_resources(), k).await;
+                (r.map(|_| true), u)
+            }
+            Op::ForceUpdate(p) => {
+                let (r, u) = poll_k(s.force_update(*p), k).await;
+                (r.map(|_| true), u)
+            }
             _ => {
                 let (r, u) = poll_k(s.fsyncdata(), k).await;
                 (r.map(|x| x.is_ok()), u)
@@ -222,7 +233,7 @@ pub fn run_cancel(c: &CancelCase, dir: &Path, findings: &Findings) -> Result<Cas
             clean: bool,
         }
         let mut worlds: Vec<World> = vec![];
-        let is_logical_noop = matches!(c.victim, Op::Fsync);
+        let is_logical_noop = matches!(c.victim, Op::Fsync | Op::Free);
         match completed {
             Some(true) => worlds.push(World { model: m1.clone(), alive: true, mask: full, clean: true }),
             Some(false) => worlds.push(World { model: m0.clone(), alive: true, mask: 0, clean: true }),
@@ -388,6 +399,8 @@ fn enumerated(thorough: bool) -> Vec<CancelCase> {
         Op::CreateActive,
         Op::Restore,
         Op::Fsync,
+        Op::Free,
+        Op::ForceUpdate(crate::sut::Pred::Always),
     ];
     let kmax = if thorough { 16 } else { 8 };
     for (vi, victim) in victims.iter().enumerate() {
@@ -412,10 +425,13 @@ fn enumerated(thorough: bool) -> Vec<CancelCase> {
                     }
                     match victim {
                         Op::CreateActive | Op::Restore => prefix.push(Op::CloseActive),
+                        // a marker appended to a closed blob loads its index back into memory (re-dump deferred for a minute):
+                        // the victim then meets a closed blob whose index has to be dumped
+                        Op::Free => prefix.push(Op::Delete { key: 1, ts: 3, meta: 0, only_if: true }),
                         _ => {}
                     }
                     let suffix = vec![Op::Write { key: 2, ts: 1, meta: 0, vlen: 35, fill: 0 }, Op::Delete { key: 1, ts: 2, meta: 0, only_if: true }, Op::Write { key: 0, ts: 4, meta: 0, vlen: 36, fill: 0 }];
-                    out.push(CancelCase { cfg: Cfg { keylen: 8, rt_workers, allow_dup: true, defer_ms: (2, 5), ..Cfg::default() }, prefix, victim: victim.clone(), k: k as u16, suffix, final_lazy: false, final_remove_idx: (k + vi) % 2 == 0 });
+                    out.push(CancelCase { cfg: Cfg { keylen: 8, rt_workers, allow_dup: true, defer_ms: if matches!(victim, Op::Free) { (60_000, 180_000) } else { (2, 5) }, ..Cfg::default() }, prefix, victim: victim.clone(), k: k as u16, suffix, final_lazy: false, final_remove_idx: (k + vi) % 2 == 0 });
                 }
             }
         }
@@ -719,7 +735,7 @@ pub fn run(ctx: &RunCtx) -> PropResult {
     PropResult {
         report,
         level: "fault_enumeration",
-        rule: "A generated history prefix (active blob fresh or reopened), then one victim call (write of 0-200 B / around 4 KiB / 5 000 B / 100 000 B with or without meta, delete with either only_if value over 0-3 closed blobs holding the key, try_close/create/restore_active_blob, fsyncdata) polled with a flag waker: it is re-polled only after its waker fired and dropped after k resumptions (k 0..13), on the current-thread runtime (every file operation is a suspension point) and the multi-thread runtime. The harness then waits for the blocking closures that future had submitted (per-thread H4 counter) and for the background queue. Oracle: all read/contains/read_all*/read_with answers for all keys equal the model with the victim applied, or the model with it not applied (one choice; a call that completed with Ok must be applied, with Err must not); generated later writes/deletes succeed and keep matching that world; a switch from not-applied to applied is accepted only at a restart; after the final restart (indexes kept or removed) corrupted_blobs_count is 0, every blob file parses completely with the harness parser and passes validate_blob. An enumerated phase runs every victim kind x every k x both runtimes x fresh/reopened active blob. The prefix may off-load filter buffers, free resources and sync, so that a cancelled call can meet off-loaded filters. A phase cancel-init closes the storage after a generated prefix (index files kept or removed), builds a new one with its own one-permit dump semaphore, polls init / init_lazy 1-16 times, drops it, requires the permit to be back once nothing is in flight (a lost permit blocks every later init and index dump on that disk), initialises the same object again and judges all data, later operations and a final restart against the model. A third phase (cancel-overlap) removes that wait: the runtime's blocking pool has ONE thread which the harness occupies with a gate, a write is polled once (its file operation is queued behind the gate) and dropped, the next write is started at once (its operation queues behind the victim's), then the gate opens; 1-4 rounds with value sizes on both sides of the in-place / background thresholds, both runtimes, also un-gated with 1-4 polls. Oracle: every acknowledged write reads back exactly, a dropped write reads NotFound or exactly its bytes, in the session and after a restart without index files; every blob file parses completely (harness parser, data checksums) and nothing is quarantined. Non-trivial = the future was dropped while pending after >=1 resumption (cancel phases); two file operations were queued behind the gate at the overlap (cancel-overlap). distinct = FNV hash of the serialized case.".into(),
+        rule: "A generated history prefix (active blob fresh or reopened), then one victim call (write of 0-200 B / around 4 KiB / 5 000 B / 100 000 B with or without meta, delete with either only_if value over 0-3 closed blobs holding the key, try_close/create/restore_active_blob, fsyncdata, free_excess_resources, force_update_active_blob with each predicate) polled with a flag waker: it is re-polled only after its waker fired and dropped after k resumptions (k 0..13), on the current-thread runtime (every file operation is a suspension point) and the multi-thread runtime. The harness then waits for the blocking closures that future had submitted (per-thread H4 counter) and for the background queue. Oracle: all read/contains/read_all*/read_with answers for all keys equal the model with the victim applied, or the model with it not applied (one choice; a call that completed with Ok must be applied, with Err must not); generated later writes/deletes succeed and keep matching that world; a switch from not-applied to applied is accepted only at a restart; after the final restart (indexes kept or removed) corrupted_blobs_count is 0, every blob file parses completely with the harness parser and passes validate_blob. An enumerated phase runs every victim kind x every k x both runtimes x fresh/reopened active blob. The prefix may off-load filter buffers, free resources and sync, so that a cancelled call can meet off-loaded filters. A phase cancel-init closes the storage after a generated prefix (index files kept or removed), builds a new one with its own one-permit dump semaphore, polls init / init_lazy 1-16 times, drops it, requires the permit to be back once nothing is in flight (a lost permit blocks every later init and index dump on that disk), initialises the same object again and judges all data, later operations and a final restart against the model. A third phase (cancel-overlap) removes that wait: the runtime's blocking pool has ONE thread which the harness occupies with a gate, a write is polled once (its file operation is queued behind the gate) and dropped, the next write is started at once (its operation queues behind the victim's), then the gate opens; 1-4 rounds with value sizes on both sides of the in-place / background thresholds, both runtimes, also un-gated with 1-4 polls. Oracle: every acknowledged write reads back exactly, a dropped write reads NotFound or exactly its bytes, in the session and after a restart without index files; every blob file parses completely (harness parser, data checksums) and nothing is quarantined. Non-trivial = the future was dropped while pending after >=1 resumption (cancel phases); two file operations were queued behind the gate at the overlap (cancel-overlap). distinct = FNV hash of the serialized case.".into(),
         assumptions: {
             let mut a = common_assumptions();
             a.push("suspension points are the ones the runtime produces: on the multi-thread runtime small file operations run in place and cannot be interrupted".into());
